@@ -22,8 +22,15 @@ func init() {
 			"maxrecv (a seed-drawn sequence of 2-3 MAX-RCV-SIZE limits from {0, 64, 320, 1600, 8000}, consecutive ones differing by a factor >= 5, each set on the receiving socket or on its listener/dialer (seed-chosen per step), " +
 			"the first one before or after the endpoint was started, the rest after connections exist; receiver pair/pull/sub/bus/xpair/xpull listening or dialing over ipc, tcp, tls+tcp, ws, wss: after every accepted Set the endpoint's Get returns the value, " +
 			"a new connection is made (first Dial, or the peer closes its pipe and the dialer reconnects), a message of half the limit (limit 0: twice the limit in effect before) is delivered and one of twice the limit is not " +
-			"(receiver reports Detached; after the reconnect a sentinel arrives at the one parked Recv instead of the probe)). " +
-			"quick: effects on inproc and vt, 26 tlscfg, 40 subs and 20 maxrecv cases; thorough: effects on all 6 transports, more queue lengths and more seed-chosen sequences, 122 tlscfg, 240 subs cases (a third over real transports) and 160 maxrecv cases. " +
+			"(receiver reports Detached; after the reconnect a sentinel arrives at the one parked Recv instead of the probe)), " +
+			"propagate (all 24 protocols x 6 transports + vt; a socket holding a just-created dialer, one created with explicit RECONNECT-TIME/MAX-RECONNECT-TIME/DIAL-ASYNCH/MAX-RCV-SIZE, a started asynchronous one, a fresh and a listening listener " +
+			"(phase conn: also a connected dialer) accepts 2-3 seed-drawn rounds of RECONNECT-TIME, MAX-RECONNECT-TIME, DIAL-ASYNCH, MAX-RCV-SIZE in seed-drawn order, every value non-negative and different from the one before: " +
+			"after each accepted Set every existing dialer returns the value from GetOption, and for MAX-RCV-SIZE every listener that has the option; phase effect over vt, 3 variants: DIAL-ASYNCH and RECONNECT-TIME accepted by the socket after NewDialer " +
+			"decide that dialer's Dial against a refusing peer (returns nil / reports the refusal) and the second attempt starts no earlier than the accepted 800ms after the first failed (20ms before; exact lower bound on the harness clock)), " +
+			"ctxq (SUB and SURVEYOR: the socket accepts READQ-LEN k, a context is opened, optionally a second length and a second context; k+7 messages per context arrive over one vt pipe while nobody receives and are known processed: " +
+			"a SUB context delivers exactly the newest k, a SURVEYOR context exactly k responses and then the sentinel response injected afterwards; SURVEYOR also with the length set on the context). " +
+			"quick: effects on inproc and vt, 26 tlscfg, 40 subs, 20 maxrecv, 216 propagate (connected phase on inproc only, one effect variant per protocol) and 20 ctxq cases (k in 1,3,5,16); " +
+			"thorough: effects on all 6 transports, more queue lengths and more seed-chosen sequences, 122 tlscfg, 240 subs cases (a third over real transports), 160 maxrecv, 384 propagate (connected phase on every transport, all effect variants) and 55 ctxq cases (11 lengths up to 200). " +
 			"non-trivial = a grid ran to completion on an object / the effect was really exercised (option accepted and traffic observed); " +
 			"distinct = hash of (object label, full outcome table) for grids, of (kind, protocol, option, transport, sequence, observed outcome) for effects",
 		Assume: commonAssume})
